@@ -567,7 +567,7 @@ func init() {
 			return fs
 		},
 		Run: func(r *verifReport) {
-			r.Rule = "honest world: for every secret pair (empty, equal, case / last-bit / NUL-suffix / prefix / trailing-blank differences, blank vs. empty, invalid UTF-8, 1000-byte, binary) × with/without question (and questions of 1 … 70000 bytes) × either initiator × v2/v3: explicit-state exploration of all interleavings of SMP steps, the answer, a budget of chat texts either way (forcing key rotation) and a clock tick, with 1 or 2 StartAuthenticate calls by the initiator (back-to-back), a further StartAuthenticate at any moment by either side (S2r / S2x), in sessions that came about by a first exchange, by a refresh (Hr) by a re-key after one side ended and its disconnect was lost (Ha), and by a refresh after an earlier SMP run in which the peer came back with another long-term key (Hk); oracle: success on both sides ⇔ secrets byte-equal, never success otherwise, failure on the responder and failure/abort on the initiator, the secret asked for exactly once per run, no chat text lost. Relay world: A–M1 and M2–B separately keyed, M forwards every SMP TLV it decrypts (with the attacker's own key, and with the relay's conversations holding the honest parties' own long-term keys, i.e. other instances of the same identities): no success on A or B for every pair, initiator, question, version (each run must reach a verdict)"
+			r.Rule = "honest world: for every secret pair (empty, equal, case / last-bit / NUL-suffix / prefix / trailing-blank differences, blank vs. empty, invalid UTF-8, 1000-byte, binary) × with/without question (and questions of 1 … 30000 bytes) × either initiator × v2/v3: explicit-state exploration of all interleavings of SMP steps, the answer, a budget of chat texts either way (forcing key rotation) and a clock tick, with 1 or 2 StartAuthenticate calls by the initiator (back-to-back), a further StartAuthenticate at any moment by either side (S2r / S2x), in sessions that came about by a first exchange, by a refresh (Hr) by a re-key after one side ended and its disconnect was lost (Ha), and by a refresh after an earlier SMP run in which the peer came back with another long-term key (Hk); oracle: success on both sides ⇔ secrets byte-equal, never success otherwise, failure on the responder and failure/abort on the initiator, the secret asked for exactly once per run, no chat text lost. Relay world: A–M1 and M2–B separately keyed, M forwards every SMP TLV it decrypts (with the attacker's own key, and with the relay's conversations holding the honest parties' own long-term keys, i.e. other instances of the same identities): no success on A or B for every pair, initiator, question, version (each run must reach a verdict)"
 			r.Assumptions = []string{"one initiator per configuration (simultaneous initiation by both sides is not a run of the protocol)", "the relay opens data messages with package-internal key material of its own conversations"}
 			pairs := c11Pairs()
 			var ids []string
@@ -602,7 +602,7 @@ func init() {
 						}
 					}
 				}
-				for _, ql := range []int{1, 255, 256, 1023, 1024, 1025, 3000, 70000} {
+				for _, ql := range []int{1, 255, 256, 1023, 1024, 1025, 3000, 30000} {
 					for _, v := range []int{2, 3} {
 						ids = append(ids, fmt.Sprintf("v%d/a-a/q%d/initA/S1/T0", v, ql), fmt.Sprintf("v%d/a-b/q%d/initB/S1/T0", v, ql))
 					}
